@@ -49,12 +49,43 @@ def install_sampler(fake):
     fake.i = 0
 
 
+SHARED = None     # C16, sequential pass: {("blinds", values): the one list object every table with these blinds is seated from}
+
+
 def cfg_kwargs(case):
     f = float(Fraction(*case["f"]))
+    blinds = (list(case["blinds"]) if case["blinds"] is not None else None)
+    if SHARED is not None and blinds is not None:
+        # a casino that keeps one blinds list per stake level and seats every table of that level from it
+        blinds = SHARED.setdefault(("blinds", tuple(blinds)), blinds)
     return dict(num_players=case["n"], deck=list(case["deck"]), starting_stacks=list(case["stacks"]),
                 hands=[list(h) for h in case["hands"]], boards=[list(case.get("board") or [])],
-                ante=case["ante"], blinds=(list(case["blinds"]) if case["blinds"] is not None else None),
+                ante=case["ante"], blinds=blinds,
                 all_in_runouts=case["runouts"], rake_fraction=f, max_rake=case["cap"])
+
+
+def decoy_table(case, kw):
+    """a caller that keeps ONE blinds list as its table configuration and seats tables of different sizes from it: before
+    the game under test another table (heads-up if the test table is not, three-handed if it is) is set up from the very
+    same blinds object and thrown away.  A constructor must not write to the list it is given."""
+    try:
+        cls = classes()[case["game"]]
+        k = 2 if case["game"] == "NLHE" else 4
+        n2 = 3 if case["n"] == 2 else 2
+        cards = [r + s_ for r in "23456789TJQKA" for s_ in "cdhs"]
+        cls(num_players=n2, deck=cards[n2 * k:], starting_stacks=[1000] * n2, hands=[cards[i * k:(i + 1) * k] for i in range(n2)],
+            boards=[[]], ante=0, blinds=kw["blinds"])
+    except Exception:
+        pass
+
+
+def scribble_dict(d):
+    """a result dict handed to the caller (payouts, rake report) used by him as his own ledger: every figure is overwritten"""
+    try:
+        for k in list(d):
+            d[k] = (d[k] if isinstance(d[k], (int, float)) else 0) + 7
+    except Exception:
+        pass
 
 
 def new_game(case):
@@ -62,9 +93,13 @@ def new_game(case):
     fake = FakeRandom(*case.get("samp", [0, 0]))
     install_sampler(fake)
     kw = cfg_kwargs(case)
+    if case.get("hostile") and kw.get("blinds") is not None:
+        decoy_table(case, kw)
+        install_sampler(fake)
     g = cls(**kw)
     g._cv_fake = fake
     g._cv_peek = bool(case.get("peek"))
+    g._cv_hostile = bool(case.get("hostile"))
     g._cv_kw = kw          # the very argument objects the game was built from
     if case.get("via_resume") and not case.get("resume_at"):
         g = resumed(g, case)
@@ -98,8 +133,16 @@ def resumed(g, case):
         # refusal is reported by the judge
         g._cv_resume_exc = f"{type(e).__name__}: {str(e)[:100]} (seat to act {g.action}, street {g.street})"
         return g
-    h._cv_fake = g._cv_fake; h._cv_peek = g._cv_peek; h._cv_kw = kw
+    h._cv_fake = g._cv_fake; h._cv_peek = g._cv_peek; h._cv_kw = kw; h._cv_hostile = getattr(g, "_cv_hostile", False)
     return h
+
+
+def read_valid(g):
+    va = g.valid_actions
+    out = sorted(va)
+    if getattr(g, "_cv_hostile", False) and isinstance(va, (set, list)):
+        va.clear()          # the caller strikes off the options as he renders them: the set he was handed is his
+    return out
 
 
 def observe(g):
@@ -124,7 +167,7 @@ def observe(g):
         "rake": [g.rake_paid.get(p) for p in range(n)] if g.rake_paid else None,
         "log": [[a.player, a.action, a.amount] for a in g.actions],
         "toCall": attempt(lambda: g.amount_to_call), "minBet": attempt(lambda: g.min_bet),
-        "maxBet": attempt(lambda: g.max_bet), "valid": attempt(lambda: sorted(g.valid_actions)),
+        "maxBet": attempt(lambda: g.max_bet), "valid": attempt(lambda: read_valid(g)),
         "closed": attempt(lambda: bool(g.is_action_closed())),
         "pnl": attempt(lambda: (lambda d: [d[p] for p in range(n)] if all(d[p] == g.player_pnl(p) for p in range(n)) else "!")(g.pnl)),
     }
@@ -170,6 +213,9 @@ def run_ops(case, shared_from=None):
                 fake = FakeRandom(*case.get("samp", [0, 0])); install_sampler(fake)
                 kw = cfg_kwargs(case)
                 kw["deck"] = shared_from._cv_kw["deck"]; kw["hands"] = shared_from._cv_kw["hands"]
+                if shared_from._cv_kw.get("blinds") is not None and kw.get("blinds") == list(case["blinds"] or []):
+                    kw["blinds"] = shared_from._cv_kw["blinds"]          # ... and the same table configuration objects
+                kw["starting_stacks"] = shared_from._cv_kw["starting_stacks"]
                 g = cls(**kw)
                 g._cv_fake = fake; g._cv_peek = bool(case.get("peek")); g._cv_kw = kw
     except Exception as e:
@@ -196,7 +242,12 @@ def run_ops(case, shared_from=None):
         if o.get("k") == "reset":
             install_sampler(g._cv_fake)
             try:
-                g.reset_state_from_action_dicts([{"player": p, "action": t, "amount": a} for p, t, a in o["log"]])
+                own = [[a.player, a.action, a.amount] for a in g.actions]
+                if getattr(g, "_cv_hostile", False) and own == [list(x) for x in o["log"]]:
+                    # the object's own log, re-applied lazily (an iterator over the live log, not a materialised copy)
+                    g.reset_state_from_action_dicts(a.to_dict() for a in g.actions)
+                else:
+                    g.reset_state_from_action_dicts([{"player": p, "action": t, "amount": a} for p, t, a in o["log"]])
                 rec["steps"].append({"r": "ok", "s": observe(g)})
             except Exception as e:
                 rec["steps"].append({"r": "internal", "e": f"{type(e).__name__}: {str(e)[:100]}"})
@@ -225,6 +276,42 @@ def run_ops(case, shared_from=None):
             if r == "internal":
                 break
     rec.pop("_frozen", None)
+    if case.get("hostile") and shared_from is None and not case.get("_second"):
+        # the caller uses the reports he was handed (payouts, rake paid, a rake preview) as his own records and overwrites
+        # them; then the same hand is played once more from the same table objects: it must go exactly as before
+        saved = []
+        try:
+            for d in (g.payouts, g.rake_paid):
+                if isinstance(d, dict):
+                    saved.append((d, dict(d)))
+            scribble_dict(g.payouts); scribble_dict(g.rake_paid)
+            scribble_dict(g.pot.get_rake_per_player(False)); scribble_dict(g.pot.get_rake_per_player(bool(g.should_rake_pot())))
+        except Exception:
+            pass
+        try:
+            c2 = {k: v for k, v in case.items() if k not in ("fork_at", "fork_mode", "resume_at", "via_resume", "hostile")}
+            c2["ops"] = [o for o in case["ops"] if not o.get("probe") and o.get("k") != "reset"]
+            c2["_second"] = True
+            rec2, _ = run_ops(c2, shared_from=g)
+            first = [st for o, st in zip(case["ops"], rec["steps"]) if not o.get("probe") and o.get("k") != "reset"]
+
+            def sig(st):
+                s_ = st.get("s") or {}
+                return [st["r"], s_.get("stacks"), s_.get("pot"), s_.get("street"), s_.get("action"), s_.get("valid"), s_.get("complete"),
+                        [round(x, 6) for x in s_["pay"]] if s_.get("pay") else None, [round(x, 6) for x in s_["rake"]] if s_.get("rake") else None]
+            if rec.get("ctor", {}).get("stacks") != rec2.get("ctor", {}).get("stacks") or rec.get("ctor", {}).get("pot") != rec2.get("ctor", {}).get("pot"):
+                rec["hostile_diff"] = (f"set up again from the same table objects the hand starts differently: stacks/pot "
+                                       f"{rec.get('ctor', {}).get('stacks')}/{rec.get('ctor', {}).get('pot')} then {rec2.get('ctor', {}).get('stacks')}/{rec2.get('ctor', {}).get('pot')}")
+            else:
+                for i, (a, b) in enumerate(zip(first, rec2["steps"])):
+                    if sig(a) != sig(b):
+                        rec["hostile_diff"] = (f"played again after the caller overwrote the result dicts he had been handed, real move {i} "
+                                               f"goes differently: {sig(a)} then {sig(b)}")
+                        break
+        except Exception as e:
+            rec["hostile_diff"] = f"playing the hand again from the same table objects failed: {type(e).__name__}: {str(e)[:100]}"
+        for d, old in saved:      # (the object handed back to the check shows its own figures again)
+            d.clear(); d.update(old)
     if getattr(g, "_cv_resume_exc", None):
         rec["resume_exc"] = g._cv_resume_exc
     if forked is not None and forked[1] is not None:
@@ -331,13 +418,21 @@ def gen_cfg(rng, scope="mixed", huge=False):
            "samp": [rng.randrange(0, 60), rng.choice([0, 1, 5, 7])]}
     if rng.random() < 0.25:
         cfg["peek"] = True      # a client that previews the rake on the live pot between actions (a read-only query)
+    if rng.random() < 0.3:
+        cfg["hostile"] = True   # a caller that edits what it is handed and keeps one table configuration (see run_ops)
     if rng.random() < 0.25:
         cfg["via_resume"] = rng.randrange(1, 12)
         cfg["resume_at"] = rng.choice([0, 0, 1, 2, 3, 4, 6])
     if rng.random() < 0.3:
         cfg["fork_at"] = rng.choice([0, 0, 1, 2, 3, 5, 8])
         cfg["fork_mode"] = rng.choice(["late", "stale"])
-    if huge and not raked and rng.random() < 0.06:
+    if rng.random() < 0.05 and not cfg.get("hostile"):
+        # deep tables: ten-digit stacks over ordinary blinds (all figures stay far below 2^53, so the float side is exact too):
+        # a one-chip difference between two ten-digit contributions is still a difference
+        D = rng.choice([10 ** 9, 10 ** 10, 3 * 10 ** 12])
+        cfg["stacks"] = [x + D for x in stacks]
+        cfg["deep"] = True
+    elif huge and not raked and rng.random() < 0.06:
         # chip counts beyond 2^53: the integer side of the engine (stacks, contributions, what is owed, the legal bet sizes)
         # must stay exact; payouts and pnl are floats by design and are NOT judged on such tables (C04 only)
         K = 3 * 10 ** 15 + 1
